@@ -222,7 +222,7 @@ fn run_real<S: State>(state: S, cfg: &OptCfg) -> Result<RunOut, String> {
         (fc, m.steps.clone(), m.inconsistency.clone(), m.initial.clone(), m.calls)
     };
     let returned_score = keep.as_ref().map(|s| s.score());
-    Ok(RunOut { panicked, returned_params, returned_score, calls_during_run: calls, steps, final_cands, inconsistency, initial, log_scores: vec![] })
+    Ok(RunOut { panicked, returned_params, returned_score, calls_during_run: calls, steps, final_cands, inconsistency, initial, log_scores: vec![], shadow_final: vec![], shadow_inconsistency: None })
 }
 
 fn real_oracle(c: &RealCase, rec: &Rec, _: &Ctx) -> Result<(), String> {
